@@ -6,6 +6,8 @@ package main
 import (
 	"encoding/json"
 	"fmt"
+	"github.com/elliotchance/gedcom/v39"
+	"os"
 	"strconv"
 	"strings"
 	"time"
@@ -49,6 +51,7 @@ var advDeviations = []gen.Deviation{
 type kase struct {
 	Data           string `json:"data"`
 	Giant          string `json:"giant,omitempty"`
+	File           bool   `json:"file_api,omitempty"`
 	MultiLine      bool   `json:"multiline"`
 	InvalidIndents bool   `json:"invalid_indents"`
 }
@@ -138,6 +141,33 @@ func namedLine(msg string) (int, bool) {
 
 var optCombos = [4][2]bool{{false, false}, {true, false}, {false, true}, {true, true}}
 
+// judgeFile: gedcom.NewDocumentFromGEDCOMFile on a file holding data must do what the decoder does on
+// the same bytes with default options: a document or an error, the documented panic at most.
+func judgeFile(path, data string) (sig, what string) {
+	if err := os.WriteFile(path, []byte(data), 0o644); err != nil {
+		return "", ""
+	}
+	want := gx.Decode(data, false, false)
+	var doc *gedcom.Document
+	var err error
+	p, msg, frame := vlib.Try(func() { doc, err = gedcom.NewDocumentFromGEDCOMFile(path) })
+	switch {
+	case p && want.Panicked:
+		return "", ""
+	case p:
+		return "file-api:panic:" + frame + ":" + vlib.MsgClass(msg), fmt.Sprintf("NewDocumentFromGEDCOMFile panics (%s) where the decoder does not, on %q", msg, data)
+	case want.Panicked:
+		return "file-api:differs-from-decoder", fmt.Sprintf("the decoder panics (%s) on %q, NewDocumentFromGEDCOMFile returns doc=%v err=%v", want.PanicMsg, data, doc != nil, err)
+	case doc == nil && err == nil:
+		return "file-api:nil-document-nil-error", fmt.Sprintf("NewDocumentFromGEDCOMFile returned neither a document nor an error for %q", data)
+	case (err != nil) != (want.Err != nil):
+		return "file-api:differs-from-decoder", fmt.Sprintf("decoder error %v, file API error %v on %q", want.Err, err, data)
+	case err == nil && doc.String() != want.Doc.String():
+		return "file-api:differs-from-decoder", fmt.Sprintf("different documents for %q", data)
+	}
+	return "", ""
+}
+
 func runInputX(r *vlib.Rec, data string) { runInput(r, data, "") }
 
 func runInput(r *vlib.Rec, data, giant string) {
@@ -182,6 +212,15 @@ func giantInput(name string) string {
 	case "huge-level-number":
 		return "0 NOTE v\n99999999999999999999999 NOTE v\n"
 	}
+	if name == "tags-1e4-distinct" {
+		// ten thousand distinct non-standard tags in one stream (and so in one process)
+		var sb strings.Builder
+		sb.WriteString("0 @I1@ INDI\n")
+		for i := 0; i < 10000; i++ {
+			fmt.Fprintf(&sb, "1 _T%d v\n", i)
+		}
+		return sb.String()
+	}
 	if strings.HasPrefix(name, "level=") {
 		// a level number at a machine-integer boundary, as first line, after a root and after a child
 		lv := strings.TrimPrefix(name, "level=")
@@ -190,7 +229,7 @@ func giantInput(name string) string {
 	panic("unknown giant " + name)
 }
 
-var giants = []string{"line-1MB", "line-1MB-unparsable", "nesting-1e5", "overdeep-1e5", "roots-1e5", "huge-level-number",
+var giants = []string{"line-1MB", "line-1MB-unparsable", "nesting-1e5", "overdeep-1e5", "roots-1e5", "huge-level-number", "tags-1e4-distinct",
 	"level=255", "level=256", "level=32767", "level=32768", "level=65535", "level=65536", "level=2147483647", "level=2147483648", "level=4294967295", "level=4294967296",
 	"level=9223372036854775807", "level=9223372036854775808", "level=18446744073709551615", "level=18446744073709551616", "level=00000000000000000000001", "level=0000000000000000000000"}
 
@@ -266,6 +305,31 @@ func run(tier, unit string, r *vlib.Rec) {
 			r.Count("bytes")
 			runInput(r, s, "")
 		}
+	case "fileapi": // the file entry point: every sequence of <=2 adversarial lines, written to a file
+		A := len(advTags) * 4
+		path := fmt.Sprintf("/dev/shm/c03-fileapi-%d.ged", os.Getpid())
+		defer os.Remove(path)
+		for idx := lo; idx < hi; idx++ {
+			n := 2
+			k := idx
+			if idx < int64(A) {
+				n = 1
+			} else {
+				k = idx - int64(A)
+			}
+			ds := gen.Digits(k, A, n)
+			ls := make([]gen.Line, n)
+			for i, d := range ds {
+				ls[i] = advLine(d)
+			}
+			for _, data := range []string{gen.Join(ls), "0 NOTE v\n" + gen.Join(ls)} {
+				r.Eval()
+				r.Count("fileapi")
+				if sig, what := judgeFile(path, data); sig != "" {
+					r.Fail(sig, what, kase{Data: strconv.Quote(data), File: true})
+				}
+			}
+		}
 	case "giant":
 		g := giants[lo]
 		r.Count("giant")
@@ -305,6 +369,7 @@ func plan(tier string) []string {
 		}
 	}
 	out = append(out, vlib.Chunks("giant", int64(len(giants)), 1)...)
+	out = append(out, vlib.Chunks("fileapi", int64(A)+gen.Pow(A, 2), 100)...)
 	return out
 }
 
@@ -314,6 +379,12 @@ func replay(c json.RawMessage) (string, string) {
 	data, _ := strconv.Unquote(k.Data)
 	if k.Giant != "" {
 		data = giantInput(k.Giant)
+	}
+	if k.File {
+		path := fmt.Sprintf("/dev/shm/c03-fileapi-replay-%d.ged", os.Getpid())
+		defer os.Remove(path)
+		sig, what := judgeFile(path, data)
+		return sig, what
 	}
 	sig, what, class := judge(data, k.MultiLine, k.InvalidIndents)
 	show := k.Data
@@ -328,7 +399,7 @@ func main() {
 		ID:    "C03",
 		Level: "exploration",
 		Rule: "inputs: (a) every sequence of <=n lines over the structure-adversarial alphabet {HUSB,WIFE,CHIL,FAM,INDI,NAME,DATE} x level 0..3, the short ones also with one line deviating (empty value, xref added/removed, value on a record line); " +
-			"(b) C02's level walks with <=1 deviating line; (c) every byte string of length <=L over {0,1,space,@,A,LF,CR,0xFF} with/without BOM; (d) six parametric giants and level numbers at every machine-integer boundary (2^8..2^64, zero-padded); each x 4 option combinations. " +
+			"(b) C02's level walks with <=1 deviating line; (c) every byte string of length <=L over {0,1,space,@,A,LF,CR,0xFF} with/without BOM; (d) the file entry point NewDocumentFromGEDCOMFile on every sequence of <=2 adversarial lines; (e) seven parametric giants (incl. ten thousand distinct non-standard tags in one process) and level numbers at every machine-integer boundary (2^8..2^64, zero-padded); each x 4 option combinations. " +
 			"Non-trivial = not (a rejected input of fewer than two lines); distinct by (options, bytes).",
 		Assumptions: []string{
 			"the documented panic is accepted only when its text is 'indent is too large', AllowInvalidIndents is off and the reference decoder agrees that the line is over-deep",
